@@ -647,7 +647,11 @@ def merge_stats(acc, st):
 def run(tier):
     R = core.Run(PID, tier, "exploration")
     # ---- part 1 ----------------------------------------------------------
+    import time
+
+    t0 = time.time()
     sp, fails, counts, samples1 = part1(R)
+    phases = {"configurations": round(time.time() - t0, 1)}
     if (counts["classes"] < 49 or counts["configurations"] < 3 * counts["classes"]
             or counts["configs_with_absent_child"] < counts["classes"] or counts["configs_with_empty_list"] < 10):
         R.fail("vacuous:configurations", counts, "fewer classes/configurations than the specification has")
@@ -655,7 +659,10 @@ def run(tier):
     ok, msg, _ = mini_pool.verify()
     if not ok:
         R.fail("vacuous:mini-pool", {"message": msg}, "the hand-written pool no longer parses or misses node classes")
+    t0 = time.time()
     pool, sizes, src = mini_pool.load_pool(tier)
+    phases["pool_build"] = round(time.time() - t0, 1)
+    t0 = time.time()
     pool.sort(key=lambda x: (len(x[1]), x[1]))
     stats = {}
     hashes = set()
@@ -667,6 +674,8 @@ def run(tier):
         merge_stats(stats, st)
         fails.extend(fl)
         hashes |= hs
+    phases["pool_sweep"] = round(time.time() - t0, 1)
+    R.set("phase_seconds", phases)
     R.fail_many(regroup(fails))
     names = [s.name for s in sp]
     reached = set(stats.get("classes", {}))
